@@ -33,14 +33,16 @@ def _cfg(name):
         return f.read()
 
 
-def make_driver(depth, width):
+def make_driver(depth, width, domain="sync"):
     use_repo()
     from luna.gateware.memory import TransactionalizedFIFO
-    dut = TransactionalizedFIFO(width=width, depth=depth, name="mem")
+    # configuration coverage: the default domain with a named memory, and a non-default domain without a name
+    dut = TransactionalizedFIFO(width=width, depth=depth, name="mem") if domain == "sync" else \
+        TransactionalizedFIFO(width=width, depth=depth, domain=domain)
     ins = {"we": dut.write_en, "wd": dut.write_data, "wc": dut.write_commit, "wdsc": dut.write_discard,
            "re": dut.read_en, "rc": dut.read_commit, "rdsc": dut.read_discard}
     outs = {"empty": dut.empty, "full": dut.full, "space": dut.space_available, "rdata": dut.read_data}
-    return CycleDriver(dut, ins, outs, bool_outputs=("empty", "full"), bool_inputs=BOOL_IN)
+    return CycleDriver(dut, ins, outs, domain=domain, bool_outputs=("empty", "full"), bool_inputs=BOOL_IN)
 
 
 def random_stimulus(rng, n, width):
@@ -125,7 +127,7 @@ def check_C18(rep):
     for depth, width, stim, origin in jobs:
         key = (depth, width)
         if key not in drivers:
-            drivers[key] = make_driver(depth, width)
+            drivers[key] = make_driver(depth, width, "usb" if (depth + width) % 2 else "sync")
         trace = drivers[key].run(stim)
         rep.add_eval(len(trace))
         for r in trace:
